@@ -1634,7 +1634,18 @@ impl Machine {
                             17 => d.month(),
                             _ => d.day(),
                         }),
-                        Some(Value::Date(_)) => return Verdict::Pass, // negative years through a u32 getter: unasserted
+                        Some(Value::Date(_)) => {
+                            // a year outside 0..=9999 through a u32 getter: the value is not asserted, the calls are
+                            // still made (no call may abort), and month / day are what they are
+                            let _ = c_api::date::haystack_value_get_date_year(p);
+                            let (mo, da) = (c_api::date::haystack_value_get_date_month(p), c_api::date::haystack_value_get_date_day(p));
+                            if let Some(Value::Date(d)) = &m {
+                                if mo != d.month() || da != d.day() {
+                                    bail!(op, "{:?}: month/day getters return {mo}/{da} for {}", op.to_json(), d.to_string());
+                                }
+                            }
+                            return self.after(Expect::Ok, op);
+                        }
                         _ => None,
                     };
                     let got = match g as usize % GETTERS {
